@@ -51,6 +51,10 @@ CHECKS = {
                 text="HFGrad.tla derives d lambda/d theta for every bin and parameter component by the product/chain rule over the declared modifiers (exact rationals; the exponential normsys factor contributes ln(base) atoms), over the specification space of MC_HFModel at differentiable points with positive rates; TLC checks GradLocal and emits the pieces; the leaf evaluator forms d(2NLL)/d theta including the constraint terms; shim(twice_nll, do_grad=True) is evaluated on pytorch, jax and tensorflow x do_stitch x fixed masks and must return the plain objective value and the exact gradient (1e-8 relative at 64b).",
                 note="normsys only in the exponential regime at integer alpha; the code-4 core and the kinks of codes 0/1 at alpha=0 are excluded (covered through C03's derivative-continuity obligations)",
                 technique="exact symbolic differentiation in TLA+ (rationals + ln atoms) + replay of the value-and-gradient functions"),
+    "C15": dict(engine="rewrites", design="4/C15",
+                text="Rewrites.tla makes the likelihood-preserving rewrites ACTIONS on specification values (permute every list, rename parameter/channel/sample with order-changing names, add a zero-yield sample, add a null histosys/normsys, split a channel's bins into two channels, merge samples with identical modifiers, rescale the signal by k) and carries the correspondence (parameter map, bin map, POI scale); TLC proves for every composition of up to MaxOps rewrites from two seed workspaces that rates agree bin by bin at corresponding parameter points (Preserves), bins are partitioned and constrained parameters preserved - so each emitted program is likelihood preserving under the specification's semantics and a disagreement seen in the code is the code's. The rewritten workspaces are built for real and mle.fit (maximised likelihood up to ln(2 pi) per added constraint), qmu_tilde, hypotest with the expected band (thorough: upper limits, minuit, pytorch, jax) are compared with the original, covariantly under signal rescaling.",
+                note="split restricted to channels without bin-wise parameters; tolerances calibrated on the unchanged tree (largest deviation recorded: 2NLL 7e-10, CLs 2e-7) and frozen at 2e-4 / 5e-3; insensitive models (median expected CLs >= 0.9) discarded and counted",
+                technique="TLA+ rewrite actions with a TLC-proved preservation invariant + replay of rewrite programs through the inference chain"),
     "C17": dict(engine="patchset", design="4/C17",
                 text="PatchSet.tla models JSON trees (key order is data), canonical form, JSON pointers and the six RFC-6902 operations; the definition layer has two maps byName/byValues, the implementation layer pyhf's single dictionary as coded. MC_PatchSet.tla registers patches from a pool that contains the words pyhf uses internally, then looks up (names, tuples, lists, wrong length/type), verifies (every single-leaf corruption and key permutation, several digest algorithms, stale digests) and applies/re-applies operation lists; TLC checks RegisterIsAccept, TwoMapsExact, LookupExact, VerifyIffRecorded, ApplyPure, ImplEqDef. Every state is replayed on pyhf.PatchSet / pyhf.utils.digest.",
                 note="hash injectivity on the explored documents is assumed (collisions would surface as replay mismatches); an unhashable key raising TypeError instead of InvalidPatchLookup is tolerated and counted; built by a sub-agent under my review",
@@ -124,6 +128,7 @@ def build():
             {"name": "asymptotics", "path": "spec/Asymptotics.tla spec/MC_Asymptotics.tla harness/checks/c07.py harness/asymptotics_replay.py", "serves_properties": ["C07"], "kind_free_text": "exact Phi-argument algebra, calculator protocol machine, replay"},
             {"name": "upperlimit", "path": "spec/UpperLimit.tla spec/MC_UpperLimit.tla harness/checks/c09.py harness/upperlimit_replay.py", "serves_properties": ["C09"], "kind_free_text": "scan state machine over abstract curves, replay with curve stub"},
             {"name": "hfgrad", "path": "spec/HFGrad.tla spec/MC_HFGrad.tla harness/checks/c13.py harness/grad_replay.py", "serves_properties": ["C13"], "kind_free_text": "exact gradient pieces from the HFModel specification, replay on AD backends"},
+            {"name": "rewrites", "path": "spec/Rewrites.tla harness/checks/c15.py harness/rewrites_replay.py", "serves_properties": ["C15"], "kind_free_text": "rewrite actions with preservation invariant, inference replay"},
             {"name": "patchset", "path": "spec/PatchSet.tla spec/MC_PatchSet.tla harness/checks/c17.py harness/patchset_replay.py", "serves_properties": ["C17"], "kind_free_text": "patch-set lookup/verify/apply specification, replay on pyhf.PatchSet"},
             {"name": "toys", "path": "spec/Empirical.tla spec/Hypotest.tla spec/TraceHypotest.tla harness/checks/c14.py harness/toys_replay.py harness/hypotest_replay.py",
              "serves_properties": ["C14"], "kind_free_text": "empirical tail fraction machine, toy protocol trace validation, exact tails"},
